@@ -5,7 +5,7 @@ from rules import flp_shape
 from rules.c16 import api_scope, policy, run_api_ppa
 from expr import fmt, walk
 from guards import block_conditions
-from rules.common import calls_named, req, strip, S
+from rules.common import calls_named, req, strip, S, clone_faithful
 
 INFO = {
     "explanation": "Necessary structural conditions of Prio3's end-to-end correctness, decided on the MIR for the WHOLE parameter lattice "
@@ -189,6 +189,8 @@ def run_bitlength(ctx):
 
 def run(ctx):
     run_bitlength(ctx)
+    # a cloned instance is the same instance (VDAF objects are cloned by callers and by the parallel gadget)
+    clone_faithful(ctx, "R-C01.CL")
     flp_shape.run_shape(ctx, "R-C01.S")
     ctx.floor("R-C01.S", 40)
     prog = ctx.prog
